@@ -258,8 +258,50 @@ fn universe(depth: usize) -> Vec<String> {
     all
 }
 
+/// completion items over the real LSP loop: what an item inserts must be a link that resolves, from the directory of the
+/// note it is inserted into, to the note the item stands for (names with spaces, a note that shares its name with a
+/// directory, the "generate" items whose command creates the new note)
+fn c15_completion_session(rep: &mut CaseReport) {
+    use crate::lsp::{Outcome, Server};
+    let mut lib: BTreeMap<String, String> = BTreeMap::new();
+    lib.insert("prompt-sum".into(), "# Summarize\n\nsummarize this\n".into());
+    lib.insert("top".into(), "# Top\n".into());
+    lib.insert("my note".into(), "# My\n".into());
+    lib.insert("d".into(), "# Folder note\n".into());
+    lib.insert("d/n".into(), "# N\n\ntext\n".into());
+    lib.insert("d/other".into(), "# Other\n".into());
+    lib.insert("d/e/deep".into(), "# Deep\n".into());
+    lib.insert("d/e/sp ace".into(), "# Spaced\n".into());
+    crate::lsp::reset_log();
+    let mut s = Server::start_mem(&lib, "");
+    for from in ["d/n", "d/e/deep", "top"] {
+        let dir = mdscan::key_dir(from);
+        let uri = s.uri(from);
+        let Outcome::Result(v) = s.request("textDocument/completion", json!({"textDocument": {"uri": uri}, "position": {"line": 2, "character": 0}})) else { continue };
+        for item in v["items"].as_array().cloned().unwrap_or_default() {
+            let Some(ins) = item["insertText"].as_str() else { continue };
+            rep.count("events", 1);
+            rep.count("completion_items_checked", 1);
+            let scan = mdscan::scan(&format!("{}\n", ins));
+            let target = scan.links.first().and_then(|l| mdscan::resolve(&l.dest, &dir));
+            // the note the item stands for: the new key of a generate command, else the note whose title is the label
+            let want = item["command"]["arguments"][0]["new_key"].as_str().map(|x| x.to_string()).or_else(|| {
+                let label = item["label"].as_str().unwrap_or("").to_string();
+                lib.iter().find(|(_, t)| t.lines().next().map(|l| l.trim_start_matches("# ") == label).unwrap_or(false)).map(|(k, _)| k.clone())
+            });
+            if want.is_some() && target != want {
+                rep.violate("completion-link-does-not-reach-its-note", "clean", format!("completion in {}: item `{}` inserts `{}`, which resolves from `{}` to {:?}; the item stands for {:?}", from, item["label"], ins, dir, target, want), json!({"library": lib, "from": from, "item": item}));
+            }
+        }
+    }
+    let _ = s.shutdown();
+}
+
 fn c15(_tier: Tier, seed: u64, case: u64) -> CaseReport {
     let mut rep = CaseReport::new(case);
+    if case == 0 {
+        c15_completion_session(&mut rep);
+    }
     let keys = universe(4);
     let mut dirs = vec![String::new()];
     dirs.extend(universe(3));
@@ -287,6 +329,11 @@ fn c15(_tier: Tier, seed: u64, case: u64) -> CaseReport {
                 }
                 if back != **k && out.len() < 5 {
                     out.push(("write-then-resolve".into(), format!("key `{}` from dir `{}`: written `{}` resolves to `{}`", k, d, url, back)));
+                }
+                // what is written must be usable as a link destination: `[x]()` and `[[]]` are not links, and ".." names a
+                // directory (a note that shares its name with the directory the link is written in must be spelled out)
+                if (url.is_empty() || url == ".." || url.ends_with("/..")) && out.len() < 5 {
+                    out.push(("written-url-not-a-destination".into(), format!("key `{}` from dir `{}`: iwe writes `{}`", k, d, url)));
                 }
                 // the url the harness would write must be equivalent
                 let mine = mdscan::relativize(k, d);
@@ -408,6 +455,26 @@ fn c17(tier: Tier, seed: u64, case: u64) -> CaseReport {
         });
         rep.count("events", 1);
         rep.count("pinned_reproducers", 1);
+        // a titled note that references itself, squashed as deep as the depth parameter goes: 256 nested sections
+        let selfref: BTreeMap<String, String> = [("s".to_string(), "# Self\n\ntext\n\n[Self](s)\n".to_string())].into_iter().collect();
+        let deep = mon::catch(|| {
+            let g = Graph::import(&state(&selfref), MarkdownOptions::default());
+            let squashed = (&g).squash(&"s".into(), 255);
+            let mut patch = g.new_patch();
+            patch.build_key_from_iter(&"s".into(), TreeIter::new(&squashed));
+            patch.export_key(&"s".into()).unwrap_or_default()
+        });
+        rep.count("events", 1);
+        match deep {
+            Ok(out) => {
+                let sc = mdscan::scan(&out);
+                let heads = sc.atoms.iter().filter(|a| matches!(a.kind, AKind::Heading(_)) && a.text.trim() == "Self").count();
+                if heads != 256 {
+                    rep.violate("squash-heading-became-text", "pinned:self-reference-depth-255", format!("256 headings `Self` expected, {} found", heads), json!({"library": selfref, "key": "s", "depth": 255}));
+                }
+            }
+            Err(p) => rep.violate("panic", &format!("{}@pinned:self-reference-depth-255", p.signature()), p.message.clone(), json!({"library": selfref, "key": "s", "depth": 255})),
+        }
         if let Ok(out) = out {
             let heads = mdscan::scan(&out).atoms.iter().filter(|a| matches!(a.kind, AKind::Heading(_))).count();
             if heads != 8 {
@@ -502,7 +569,8 @@ fn c17(tier: Tier, seed: u64, case: u64) -> CaseReport {
     let r = mon::catch(|| {
         let g = Graph::import(&state(&texts), MarkdownOptions::default());
         let squashed = (&g).squash(&key.as_str().into(), depth as u8);
-        let mut patch = Graph::new();
+        // as `iwe squash` does: a patch of the library (its Markdown options and front matter)
+        let mut patch = g.new_patch();
         patch.build_key_from_iter(&key.as_str().into(), TreeIter::new(&squashed));
         patch.export_key(&key.as_str().into()).unwrap_or_default()
     });
